@@ -63,6 +63,14 @@ ImportOne(b0, st, t) ==
                      !.known = (t :> nm) @@ @,
                      !.err   = @ \/ ~Valid(b0, t)]
 
+\* importNewRef with the name the code logged (conformance: the context is rebuilt from the events)
+ImportLogged(b0, st, t, nm, keys, oai) ==
+  LET sch == IF Valid(b0, t) THEN NodeAt(b0, t) ELSE Empty
+  IN [st EXCEPT !.doc   = ImportNew(b0, st.doc, t, nm, keys),
+                !.nr    = [k \in keys |-> Ent(nm, DefPath(nm), oai, Carry(st.nr, k), sch, {})] @@ st.nr,
+                !.gen   = IF oai THEN @ \cup {nm} ELSE @,
+                !.known = (t :> nm) @@ @]
+
 \* ---- end of an import round: entries are re-keyed by the definition they created, and the holder entries now speak about themselves
 EndRound(st) ==
   LET nr    == st.nr
